@@ -60,6 +60,7 @@ class Ctx:
         self.notes = []
         self.rules_doc = {}
         self.analysed = {"functions": set(), "call_sites": 0, "blocks": 0}
+        self.deferred = []   # (rule, key, why, loc, cfg, (cfg, path)): verdicts that depend on whether some other rule reads the body
 
     # -- loading -------------------------------------------------------------
     def prog(self, cfg):
@@ -107,6 +108,10 @@ class Ctx:
 
     # -- finish ----------------------------------------------------------------
     def finish(self, explanation, assumptions, level="other"):
+        for rule, key, why, loc, cfg, fk in self.deferred:
+            read = fk in self.analysed["functions"]
+            self.ob(rule, key, read, ("the body changed form and is read by a dedicated rule of this check" if read else why), loc, cfg)
+        self.deferred = []
         known, fixed = load_known()
         viol = []
         kf = []
